@@ -135,6 +135,26 @@ POS = {
     "sel_agg_unaliased": ("op", lambda Q, x: Q.from_(T()).select(FN.Max(x), T().k)),
     "sel_over_unaliased": ("op", lambda Q, x: Q.from_(T()).select(AN.Sum(T().k).over(x), T().k)),
     "insert_tuple_unaliased": ("op", lambda Q, x: Q.into(T()).insert(1, Tuple(x, 2))),
+    # the third / fourth slot of n-ary constructs (the first two are covered above)
+    "case_when3": ("op", lambda Q, x: Q.from_(T()).select(Case().when(T().k == 1, 2).when(T().k == 2, 3).when(x == 1, 4).else_(5).as_("out"))),
+    "case_then3": ("op", lambda Q, x: Q.from_(T()).select(Case().when(T().k == 1, 2).when(T().k == 2, 3).when(T().k == 3, x).else_(5).as_("out"))),
+    "case_then4": ("op", lambda Q, x: Q.from_(T()).select(Case().when(T().k == 1, 2).when(T().k == 2, 3).when(T().k == 3, 4).when(T().k == 4, x).as_("out"))),
+    "case_then3_unaliased": ("op", lambda Q, x: Q.from_(T()).select(Case().when(T().k == 1, 2).when(T().k == 2, 3).when(T().k == 3, x), T().k)),
+    "case_else_after3": ("op", lambda Q, x: Q.from_(T()).select(Case().when(T().k == 1, 2).when(T().k == 2, 3).when(T().k == 3, 4).else_(x).as_("out"))),
+    "func_arg3": ("op", lambda Q, x: Q.from_(T()).select(FN.Coalesce(T().k, 0, x).as_("out"))),
+    "func_arg4_unaliased": ("op", lambda Q, x: Q.from_(T()).select(FN.Coalesce(T().k, 0, 1, x), T().k)),
+    "in_element3": ("op", lambda Q, x: Q.from_(T()).select(T().k).where(T().k.isin([1, 2, x, 4]))),
+    "tuple_el3": ("op", lambda Q, x: Q.from_(T()).select(Tuple(1, 2, x), T().k)),
+    "array_el3": ("op", lambda Q, x: Q.from_(T()).select(Array(1, 2, x), T().k)),
+    "and_3rd": ("op", lambda Q, x: Q.from_(T()).select(T().k).where((T().k == 1) & (T().k == 2) & (x == 3))),
+    "where_call3": ("op", lambda Q, x: Q.from_(T()).select(T().k).where(T().k == 1).where(T().k == 2).where(x == 3)),
+    "arith_3rd": ("op", lambda Q, x: Q.from_(T()).select((T().k + 1 + x).as_("out"))),
+    "over_partition3": ("op", lambda Q, x: Q.from_(T()).select(AN.Sum(T().k).over(T().k, T().j, x).as_("out"))),
+    "over_order3": ("op", lambda Q, x: Q.from_(T()).select(AN.Sum(T().k).over(T().k).orderby(T().k).orderby(T().j).orderby(x).as_("out"))),
+    "set_value3": ("op", lambda Q, x: Q.update(T()).set(T().k, 1).set(T().j, 2).set(T().i, x)),
+    "insert_value3": ("op", lambda Q, x: Q.into(T()).insert(1, 2, x + 0)),
+    "join3_on": ("op", lambda Q, x: Q.from_(T()).join(Table("u1")).on(T().k == Table("u1").k).join(Table("u2")).on(T().k == Table("u2").k)
+                 .join(Table("u3")).on((T().k == Table("u3").k) & (x == 1)).select(T().k)),
 }
 PG_POS = {
     "returning": ("def", lambda Q, x: Q.into(T()).insert(1).returning(x)),
